@@ -52,6 +52,9 @@ type Config struct {
 
 	// UDPIPv6Form makes ReadFrom report IPv4 sources in 16-byte form.
 	UDPIPv6Form bool `json:"udp_ipv6_form"`
+	// Coalesce is the probability that a write is merged with the write before it when both are
+	// waiting for delivery at the same instant (one byte run, then chunked as one write).
+	Coalesce float64 `json:"tcp_coalesce,omitempty"`
 }
 
 // TapEvent is what a wire tap sees.
@@ -523,6 +526,23 @@ func (n *Net) collectConn(c *Conn) {
 	entries := c.out
 	c.out = nil
 	p := c.peer
+	if n.Cfg.Coalesce > 0 && len(entries) > 1 {
+		// tcp.coalesce: consecutive writes that are waiting together travel as one byte run (the
+		// receiver sees them in one read unless the chunking splits them elsewhere)
+		merged := entries[:0:0]
+		for _, e := range entries {
+			k := len(merged)
+			if k > 0 && !e.fin && !merged[k-1].fin &&
+				core.Unit(core.HS(n.Cfg.Seed, "coalesce", c.ID, c.nOut+uint64(k))) < n.Cfg.Coalesce {
+				merged[k-1].data = append(append([]byte(nil), merged[k-1].data...), e.data...)
+				merged[k-1].at = e.at
+				n.stat("tcp.coalesce")
+				continue
+			}
+			merged = append(merged, e)
+		}
+		entries = merged
+	}
 	for _, e := range entries {
 		idx := c.nOut
 		c.nOut++
